@@ -4,6 +4,11 @@ CLAIMED = {
         'note': "Decides the wiring (a necessary condition: a missing invalidation or notification makes some update sequence return a stale value); does not decide numerical equality with a freshly built model. Kinds of constructor arguments are trusted from annotations; unannotated ones are refined through from_json feeders or reported undecided.",
         'technique': "class-hierarchy + CFG must-analysis of change handlers, member resolution, def-use of in-place writes",
     },
+    'C17': {
+        'text': "Writer/reader cross-check of all 12 concrete state_dict/load_state_dict pairs (resolved along the MRO, base and _-halves joined, nested element states matched against every element class): keys read are written, keys written are read, conditional keys are guarded alike; coverage of loop-carried run state (every attribute, own or of an owned helper object, mutated in a method reachable from run/step/tune/learn/accept/reject is written and restored); ParameterEncoder/TensorEncoder tables against main() routing, update_parameters, Parameter.from_json and TensorDecoder; and the integer-key fact about torch optimiser state. These are exhaustive over classes, keys and attributes, which is the 'every optimiser and every operator/adaptor type ... restarting never fails' quantifier; the suite has no checkpoint test.",
+        'note': "Decides key/attribute agreement (necessary: a missing key raises on restart, an unread key or unsaved attribute loses state); does not decide trajectory equality or dtype fidelity at run time. Trusted: torch optimiser state is keyed by int, JSON keys are str; torch scheduler state is opaque.",
+        'technique': "writer/reader table extraction and cross-check over resolved methods; mutation reachability (def-use) for run-state coverage",
+    },
     'C18': {
         'text': "Exhaustive abstract interpretation of the checkpoint writer over the file typestate {name,name.new,name.old}->{absent,complete,partial}: every crash prefix of every path, for every flag combination the resolved call sites can pass, closed under restart-after-crash. Shows that a complete checkpoint always survives and that the checkpoint name is never a truncated file. Finite state space, fully enumerated; this is the quantifier of the property (all crash points, any number of consecutive interrupted writes), which no test can reach.",
         'note': "Trusted: POSIX rename/replace are atomic and raise on a missing source; open(...,'w') truncates immediately; a with-block that exits normally leaves a complete file. Power-loss durability (fsync) and the content written are not decided.",
